@@ -310,6 +310,10 @@ func (e *mvccEngine) backupOp(toks []string) string {
 			e.alloc.Release()
 		}
 		e.db, e.alloc = db, a
+		if e.links {
+			// the application's chain named nodes of the instance that is gone
+			e.nl = nitro.NewNodeList(nil)
+		}
 		atomic.StoreInt64(&e.sent, 0)
 		atomic.StoreInt64(&e.done, 0)
 		e.writers = pre
